@@ -260,7 +260,7 @@ def mon_c05(c, r):
             alive = False
         elif tok == 'i':
             signalled = True
-        elif tok.startswith('d'):
+        elif tok[0] in 'du' and tok[1:].isdigit():
             i = int(tok[1:])
             if i in yielded:
                 dropped.add(i)
